@@ -52,6 +52,9 @@ theorem src_obj_c2r (c : CBox K) (p : V3 K) (hd : c.box.vects.det ≠ 0) (hc : c
       .vec (Generated.BoxSource.c2r c.box.origin (Generated.BoxSource.cacheFill c.box.vects) p) := by
   simp [CBox.read, CBox.recip?, hc, hd, Generated.BoxSource.c2r, Generated.BoxSource.cacheFill, Box.recip]
 
+example : ∃ c : CBox ℚ, c.box.vects.det ≠ 0 ∧ c.cache = none ∧ c.box.origin ≠ ⟨0, 0, 0⟩ :=
+  ⟨⟨⟨⟨⟨2, 0, 0⟩, ⟨1, 3, 0⟩, ⟨0, 1, 4⟩⟩, ⟨1, 2, 3⟩⟩, none⟩, by decide +kernel, rfl, by decide +kernel⟩
+
 theorem src_planes (b : Box K) : Generated.BoxSource.planes b.vects b.origin = planes b := rfl
 
 theorem src_volume (b : Box K) : Generated.BoxSource.volume b.vects = volume b := rfl
@@ -102,5 +105,26 @@ theorem src_set_abc (a b c ca cb cg ly lz : K) :
 theorem src_angles (al be ga : K) : Generated.BoxSource.anglesRejected al be ga = !anglesOk al be ga := by
   simp only [Generated.BoxSource.anglesRejected, anglesOk, Bool.not_and, Bool.or_assoc]
   simp only [← not_lt, decide_not]
+
+/-! ### inside / outside -/
+
+/-- `Plane.below` with the stored normal `normal / λ`. -/
+theorem src_below (pl : RawPlane K) (lam : K) (p : V3 K) (incl : Bool) :
+    below pl lam p incl = Generated.BoxSource.planeBelow (vdiv pl.normal lam) pl.point p incl := rfl
+
+/-- `Box.inside` is the conjunction of `Plane.below` over the six planes of `Box.planes` (in the
+    order the source lists them, each with the caller's `inclusive`), `Plane` normalises the normal and
+    keeps the point, and `outside` is the negated `inside` with the opposite flag. -/
+theorem src_inside (b : Box K) (lam : Lams K) (p : V3 K) (incl : Bool) :
+    Generated.BoxSource.insidePlanes = [0, 1, 2, 3, 4, 5] ∧
+    Generated.BoxSource.planeStoresUnitNormalAndPoint = true ∧
+    Generated.BoxSource.outsideIsNotInsideOpposite = true ∧
+    inside b lam p incl =
+      ((Generated.BoxSource.planes b.vects b.origin).zip lam.toList).all
+        (fun pl => Generated.BoxSource.planeBelow (vdiv pl.1.normal pl.2) pl.1.point p incl) ∧
+    outside b lam p incl = !inside b lam p (!incl) := by
+  refine ⟨rfl, rfl, rfl, ?_, rfl⟩
+  simp only [Generated.BoxSource.planes, Lams.toList, List.zip_cons_cons, List.zip_nil_right, List.all_cons,
+    List.all_nil, Bool.and_true, inside, below, Generated.BoxSource.planeBelow, Bool.and_assoc]
 
 end Atomman.C01
